@@ -126,6 +126,7 @@ struct Tally {
     pending_not_shown: u64,
     pending_flag: u64,
     pending_backspace: u64,
+    with_bystanders: u64,
 }
 
 fn case_json(bits: u8, word: &[&Syl], bs_at: Option<usize>) -> Value {
@@ -150,11 +151,20 @@ fn type_uni(off: &Sess, word: &[&Syl], t: &mut Tally) -> Result<String, Panic> {
     for s in word {
         for &(k, m) in &s.uni {
             t.events += 1;
-            last = shown(&off.key(k, m, 0)?);
+            last = text_of(&off.key(k, m, 0)?);
         }
     }
     off.finish()?;
     Ok(last)
+}
+
+/// The composed text a context shows: the single string, or the first candidate of a list (which is the composed text, C15).
+fn text_of(s: &riti::suggestion::Suggestion) -> String {
+    if s.is_lonely() {
+        s.get_lonely_suggestion().to_string()
+    } else {
+        s.get_suggestions().first().cloned().unwrap_or_default()
+    }
 }
 
 fn judge(off: &Sess, on: &Sess, bits: u8, word: &[&Syl], bs_at: Option<usize>, out: &mut Out, t: &mut Tally) {
@@ -184,7 +194,7 @@ fn judge(off: &Sess, on: &Sess, bits: u8, word: &[&Syl], bs_at: Option<usize>, o
                     t.events += 1;
                     let before = cur.clone();
                     let sg = on.key(k, m, 0)?;
-                    let shown_now = shown(&sg);
+                    let shown_now = text_of(&sg);
                     // (1) a sign waiting for its consonant is not shown
                     t.pending_not_shown += 1;
                     if shown_now != before {
@@ -200,7 +210,7 @@ fn judge(off: &Sess, on: &Sess, bits: u8, word: &[&Syl], bs_at: Option<usize>, o
                         // (3) discarded by one backspace
                         t.pending_backspace += 1;
                         let b = on.bs(false)?;
-                        let after_bs = shown(&b);
+                        let after_bs = text_of(&b);
                         let flag = on.ongoing()?;
                         if after_bs != before || b.is_empty() != before.is_empty() || flag != !before.is_empty() {
                             out.violation("pending-sign-discarded-by-backspace", "c14:pending-backspace-immediate".into(), case(),
@@ -212,7 +222,7 @@ fn judge(off: &Sess, on: &Sess, bits: u8, word: &[&Syl], bs_at: Option<usize>, o
             }
             for &(k, m) in &s.rest {
                 t.events += 1;
-                cur = shown(&on.key(k, m, 0)?);
+                cur = text_of(&on.key(k, m, 0)?);
             }
         }
         on.finish()?;
@@ -252,6 +262,7 @@ fn flush(t: &Tally, out: &mut Out) {
     out.count("pending_not_shown_checked", t.pending_not_shown);
     out.count("pending_flag_checked", t.pending_flag);
     out.count("pending_backspace_checked", t.pending_backspace);
+    out.count("words_with_bystander_options", t.with_bystanders);
 }
 
 impl Prop for C14 {
@@ -348,6 +359,24 @@ impl Prop for C14 {
                 out.begin_case(|| case_json(bits, &word, at));
                 judge(&off, &on, bits, &word, at, out, &mut t);
             }
+            // the same with options the statement does not mention switched on in both contexts (candidate list, smart
+            // quotes, ANSI output, English, number pad): with a list, the composed text is its first candidate
+            for by in [O_FSUGG, O_FSUGG | O_SQ | O_ENG, O_ANSI, O_FSUGG | O_ANSI | O_NUMPAD] {
+                let sp = |order: bool| CfgSpec { opts: spec_for(bits, order).opts | by, ..spec_for(bits, order) };
+                let (Ok(off2), Ok(on2)) = (Sess::new(sp(false), &root), Sess::new(sp(true), &root)) else { continue };
+                for r in 0..env.tier.pick(60, 600) {
+                    let len = if r % 3 == 0 { 1 } else { rng.range(2, 4) };
+                    let word: Vec<&Syl> = (0..len).map(|_| &syl[rng.below(n)]).collect();
+                    let at = if rng.chance(1, 3) { (0..len).find(|&a| !word[a].pre.is_empty()) } else { None };
+                    out.begin_case(|| {
+                        let mut c = case_json(bits, &word, at);
+                        c["bystander_options"] = json!(by);
+                        c
+                    });
+                    t.with_bystanders += 1;
+                    judge(&off2, &on2, bits, &word, at, out, &mut t);
+                }
+            }
         }
         flush(&t, out);
     }
@@ -357,13 +386,15 @@ impl Prop for C14 {
         let (Some(uni), Some(tw)) = (case.get("unicode_order_events").and_then(evs_from_json), case.get("typewriter_order_events").and_then(evs_from_json)) else { return };
         let root = env.root("c14");
         fresh_root(&root);
-        let (Ok(off), Ok(on)) = (Sess::new(spec_for(bits, false), &root), Sess::new(spec_for(bits, true), &root)) else { return };
+        let by = case.get("bystander_options").and_then(|b| b.as_u64()).unwrap_or(0) as u16;
+        let sp = |order: bool| CfgSpec { opts: spec_for(bits, order).opts | by, ..spec_for(bits, order) };
+        let (Ok(off), Ok(on)) = (Sess::new(sp(false), &root), Sess::new(sp(true), &root)) else { return };
         let run = |s: &Sess, evs: &[Ev]| -> Result<String, Panic> {
             let mut cur = String::new();
             for e in evs {
                 match e {
-                    Ev::Key(k, m, _) => cur = shown(&s.key(*k, *m, 0)?),
-                    Ev::Bs => cur = shown(&s.bs(false)?),
+                    Ev::Key(k, m, _) => cur = text_of(&s.key(*k, *m, 0)?),
+                    Ev::Bs => cur = text_of(&s.bs(false)?),
                     _ => {}
                 }
             }
